@@ -82,8 +82,26 @@ PROPS = {
                    'Sub-list stability at process level is covered under C04. Known finding: F6.',
         technique='Lean 4 proof (checked-run => junk-independent, free-monad memory model) + correspondence over dirty slabs',
     ),
+    'C06': dict(
+        areas=[('reader', 6000, 600000), ('rank', 4000, 400000), ('filter', 3000, 200000)],
+        rule='scripted io.Reader: streams of delimiter / CR / NUL / multi-byte pieces cut into reads of 0..3 bytes (incl. reads '
+             'without progress, data+EOF and data+error outside the OS quantifier), both delimiters; large generated streams of '
+             '65535..300000 bytes with records of 0..140000 bytes read in steps of 1..70000 bytes (64 KiB buffer and 128 KiB slab '
+             'boundaries +-1); chunk-list scripts with --tail snapshots; filter runs with --header-lines / --tail; non-trivial = '
+             '>= 2 records delivered in >= 3 reads, or a multi-chunk snapshot; distinct = distinct case lines',
+        trusted=['the OS never returns data together with an error (hypothesis OSReads; the excluded point is exercised, finding F4)',
+                 'bytes.IndexByte', 'process-level piping through a real pipe is part of the C07 driver'],
+        level_text='Lean 4 theorem for every OS-style read sequence (any number and sizes of reads, any cut positions): Reader.feed '
+                   'hands over exactly splitRecords(stream); delivery is unobservable; splitRecords inverts "records each followed by '
+                   'the delimiter plus an optional unterminated tail" (empty records kept). Reader.feed is run on scripted readers '
+                   '(views compared with copies taken at push time), ChunkList push/snapshot(--tail)/PassMerger and --header-lines/'
+                   '--tail filter runs are compared with the model and judged against "the last N records, numbered from the start".',
+        level_note='Partial: slab-view stability and the chunk-list tail/index clauses are checked per case (views vs copies; '
+                   'snapshot = last N items), not yet theorems. Known (outside the OS quantifier): F4.',
+        technique='Lean 4 proof (feed = splitRecords by induction over reads with a buffer-splitting invariant) + model/implementation correspondence',
+    ),
     'C10': dict(
-        areas=[('tok', 20000, 2000000)],
+        areas=[('tok', 20000, 2000000), ('pat', 4000, 400000)],
         rule='seeded lines built from delimiter / blank / multi-byte pieces (leading, trailing, consecutive delimiters); '
              'AWK, single-character, multi-character literal and regular-expression delimiters (incl. ones matching the '
              'empty string); nth expressions with bounds -6..6, 0, +-1000000 and malformed ones; non-trivial = a line '
